@@ -18,7 +18,15 @@ Round 5: the report DOCUMENTS are an observation point of the oracle (an unparsa
 input); AWKWARD NAMES (harness/gen/names.py: backslash, quote, tab, glob characters; NFC / NFD twins; novel source
 literals); HISTORIES add / query / add on one Codebase (read-only queries while the code base is being filled);
 ladder rungs from the integer literals that are new in the source under check (harness/gen/srcdict.py); ladders over
-the number of languages and of sub-folders of one folder."""
+the number of languages and of sub-folders of one folder.
+
+Round 6: (a) the query schedule also asks questions AFTER aggregate() - every presentation function (print_report /
+print_totals / print_summary / print_findings of both formats, SummaryTable, ScanResultTable) - before the object and the
+documents are judged (a presentation call changes nothing); (b) SCAN HISTORIES (`harness/h4_round6.py`): working trees of
+real source files whose function lengths are known by construction are scanned, edited (add / remove / copy / move /
+modify / touch / exclude / remove a folder) and scanned again, through scan_command (judged: the report it writes into
+the cache directory) and through Scanner.scan_path given the report read back from the cache (judged: the object, the
+object after presentation queries, a second scan with the same cached report object, both documents)."""
 import itertools
 import os
 import sys
@@ -29,6 +37,7 @@ import common
 import logic
 import h4_support as h4
 import h4_round5 as r5
+import h4_round6 as r6
 from gen import names as gnames
 from gen import srcdict
 
@@ -71,12 +80,17 @@ def request(files, naggr=1):
         for (p, lang, loc, ms) in files))
 
 
+def _nums(vs):
+    """` a b c d` for a profile; tolerant of a list of the wrong length or with non-integers (an observation, not a crash)"""
+    return "".join(" %d" % v if isinstance(v, int) else " " + repr(v) for v in vs)
+
+
 def fmt_main(s):
     return "ok L %d%s T %d%s F %d%s" % (
         len(s["totals"]), "".join(" %s %d %d %d %d %d" % ((enc_str(t[0]),) + tuple(t[1:])) for t in s["totals"]),
-        len(s["tree"]), "".join(" %s %d%s %d %d %d %d" % ((enc_str(k), len(es), "".join(" %d %s" % (d, enc_str(n)) for d, n in es)) + tuple(pr))
+        len(s["tree"]), "".join(" %s %d%s%s" % (enc_str(k), len(es), "".join(" %d %s" % (d, enc_str(n)) for d, n in es), _nums(pr))
                                 for k, es, pr in s["tree"]),
-        len(s["files"]), "".join(" %s %s %d %d %d %d %d %d%s" % ((enc_str(p), enc_str(lang), loc) + tuple(pr) + (len(ms), "".join(" %d" % v for v in ms)))
+        len(s["files"]), "".join(" %s %s %d%s %d%s" % (enc_str(p), enc_str(lang), loc, _nums(pr), len(ms), "".join(" %d" % v for v in ms))
                                  for p, lang, loc, pr, ms in s["files"]))
 
 
@@ -600,6 +614,9 @@ def gen_awkward(rnd):
     return [(p,) + gen_meta(rnd, 3) for p in paths]
 
 
+POST = 10 ** 9     # schedule position "after aggregate()"
+
+
 def gen_schedule(rnd, nfiles):
     """[[position, query name], ...]: read-only queries asked after `position` files were added (0 = on the empty code base)"""
     from codelimit.common.Codebase import Codebase
@@ -609,6 +626,10 @@ def gen_schedule(rnd, nfiles):
         out.append([rnd.randint(0, nfiles), rnd.choice(qs)])
     if rnd.random() < 0.5 and nfiles:
         out.append([nfiles - 1, rnd.choice(qs)])       # just before the last file
+    if rnd.random() < 0.7:
+        # STATE PROBE after every presentation function: questions asked AFTER aggregate(), before the code base is looked at
+        for _ in range(rnd.choice([1, 1, 2, 4])):
+            out.append([POST, rnd.choice(qs)])
     return sorted(out, key=lambda x: x[0])
 
 
@@ -642,6 +663,13 @@ def history_probe(files, schedule):
                     cb.add_file(SourceFileEntry(p, "c0ffee", lang, loc,
                                                 [Measurement("f%d" % k, Location(k + 1, 1), Location(k + 2, 1), v) for k, v in enumerate(ms)]))
             cb.aggregate()
+            for q in at.get(POST, []):
+                try:
+                    r5.run_query(cb, q)
+                except (KeyError, RecursionError):
+                    raise
+                except Exception as e:   # noqa: BLE001
+                    bad.append("the read-only query %s (after aggregate) raised %s: %s" % (q, type(e).__name__, str(e)[:80]))
         finally:
             sys.setrecursionlimit(lim)
     except (KeyError, RecursionError) as e:
@@ -657,6 +685,143 @@ def history_probe(files, schedule):
     return bad, s
 
 
+# ------------------------------------------------------------------ round 6: code bases produced by scans with a cached report
+
+def doc_snapshot(root):
+    """the codebase section of the report `codelimit scan` left in the cache directory, in the snapshot format"""
+    import json
+    with open(r6.cache_file(root)) as f:
+        doc = json.load(f)["codebase"]
+    return {
+        "totals": [(k, t["files"], t["lines_of_code"], t["functions"], t["hard_to_maintain"], t["unmaintainable"]) for k, t in doc["totals"].items()],
+        "tree": [(k, [(1 if n.endswith("/") else 0, n) for n in f["entries"]], f["profile"]) for k, f in doc["tree"].items()],
+        "files": [(k, e["language"], e["loc"], e["profile"], [m["value"] for m in e["measurements"]]) for k, e in doc["files"].items()],
+    }
+
+
+def observe_scan(tree, step, state):
+    """one scan of a working tree -> reasons. step = ["scan", mode, queries]:
+    mode "command": scan_command (reads the cached report the previous scan left, prints, writes the new report) - the
+                    property is judged on the codebase section of the report it WRITES;
+    mode "path":    Scanner.scan_path(root, the report read back from the cache file) + aggregate - judged on the object,
+                    again after the presentation `queries`, again on a second scan with the SAME cached report object, and on
+                    the documents; the report is then written to the cache file as scan_command would.
+    The required numbers come from the tree's construction (files on disk that are not excluded, function lengths)."""
+    import os
+    from codelimit.common.report.Report import Report
+    from codelimit.common.report.ReportReader import ReportReader
+    from codelimit.common.report.ReportWriter import ReportWriter
+    truth = tree.scanned()
+    n = state["scans"] = state.get("scans", 0) + 1
+    bad = []
+    if step[1] == "command":
+        r6.scan_command_output(tree.root)
+        bad += ["report written by scan number %d (scan_command): %s" % (n, b) for b in oracle(truth, doc_snapshot(tree.root))[:4]]
+        return bad
+    cached = None
+    if os.path.exists(r6.cache_file(tree.root)):
+        with open(r6.cache_file(tree.root)) as f:
+            cached = ReportReader.from_json(f.read())
+    cb = r6.scan_with_cache(tree.root, cached)
+    where = "scan number %d (scan_path %s a cached report)" % (n, "with" if cached else "without")
+    bad += ["%s: %s" % (where, b) for b in oracle(truth, snap_object(cb))[:4]]
+    for q in step[2] if len(step) > 2 else []:
+        r5.run_query(cb, q)
+    if len(step) > 2 and step[2]:
+        bad += ["%s, after the read-only queries %s: %s" % (where, step[2], b) for b in oracle(truth, snap_object(cb))[:4]]
+    for name, j in zip(("pretty", "compact"), snap_json(cb)):
+        if "invalid" in j:
+            bad.append(j["invalid"])
+        else:
+            bad += ["%s, report document (%s): %s" % (where, name, b) for b in oracle(truth, j)[:3]]
+    if cached is not None:
+        cb2 = r6.scan_with_cache(tree.root, cached)
+        bad += ["%s, second scan with the same cached report object: %s" % (where, b) for b in oracle(truth, snap_object(cb2))[:3]]
+    os.makedirs(os.path.dirname(r6.cache_file(tree.root)), exist_ok=True)
+    with open(r6.cache_file(tree.root), "w") as f:
+        f.write(ReportWriter(Report(cb)).to_json())
+    return bad
+
+
+def gen_scan_step(rnd, qs):
+    if rnd.random() < 0.5:
+        return ["scan", "command"]
+    return ["scan", "path", [rnd.choice(qs) for _ in range(rnd.choice([0, 1, 2, 3]))]]
+
+
+def run_scan_history(rnd, k, exts, qs):
+    """-> (steps, list of reason lists, scans)"""
+    import shutil
+    import tempfile
+    d = tempfile.mkdtemp(prefix="c07_tree_")
+    state, fails, nobs = {}, [], 0
+    try:
+        tree = r6.start_tree(d, rnd, exts)
+        for r in range(rnd.choice([2, 3, 3, 4])):
+            if r:
+                r6.do_round(tree, rnd, k + r)
+            step = gen_scan_step(rnd, qs)
+            tree.log.append(step)
+            b = observe_scan(tree, step, state)
+            nobs += 1
+            if b:
+                fails.append(b)
+        return [list(s) for s in tree.log], fails, nobs
+    finally:
+        shutil.rmtree(d, ignore_errors=True)
+
+
+def replay_scan_history(steps):
+    import shutil
+    import tempfile
+    d = tempfile.mkdtemp(prefix="c07_tree_")
+    state, fails = {}, []
+    try:
+        r6.replay_tree(d, steps, lambda tree, st: fails.extend(observe_scan(tree, st, state)))
+    finally:
+        shutil.rmtree(d, ignore_errors=True)
+    return fails
+
+
+def shrink_scan_history(steps):
+    def failing(s):
+        try:
+            return bool(replay_scan_history(s))
+        except Exception:   # noqa: BLE001 - a dropped step made a later one inapplicable
+            return False
+    cur = list(steps)
+    i = 0
+    while i < len(cur) and len(cur) > 1:
+        cand = cur[:i] + cur[i + 1:]
+        if failing(cand):
+            cur = cand
+        else:
+            i += 1
+    return cur
+
+
+def run_scan_histories(ctx, fails, dist):
+    from codelimit.common.Codebase import Codebase
+    qs = r5.query_names(Codebase("/root"))
+    rnd = ctx.rng("scan-histories")
+    total = 0
+    for k in range(ctx.pick(60, 1200)):
+        exts = [("py",), ("py", "c"), ("py",), ("py", "c", "java", "ts", "js")][k % 4]
+        steps, bad, nobs = run_scan_history(rnd, k, exts, qs)
+        total += nobs
+        dist["scan_histories"] = dist.get("scan_histories", 0) + 1
+        for st in steps:
+            key = st[0] if st[0] != "scan" else "scan/" + st[1]
+            dist.setdefault("scan_history_steps", {})[key] = dist.setdefault("scan_history_steps", {}).get(key, 0) + 1
+        if bad:
+            if sum(1 for f in fails if f["input"].get("stream") == "scan-history") < 3:
+                steps = shrink_scan_history(steps)
+                bad = [replay_scan_history(steps)] or bad
+            fails.append({"input": {"stream": "scan-history", "tree_steps": steps}, "observed": bad[0][:4],
+                          "required": "C07 for the code base a scan produces and writes (with or without a cached report), recomputed from the files in the working tree"})
+    return total
+
+
 def shrink_failure(f, budget_s=2.5):
     """smaller file list (and schedule) on which the same kind of check still fails; the failure is rewritten in place"""
     inp = f["input"]
@@ -665,7 +830,7 @@ def shrink_failure(f, budget_s=2.5):
     fs = [(x[0], x[1], x[2], list(x[3])) for x in inp["files"]]
     if inp.get("stream") == "query-before-complete":
         def clip(sched, n):
-            return [[min(pos, n), q] for pos, q in sched]
+            return [[pos if pos == POST else min(pos, n), q] for pos, q in sched]
 
         def reasons(sub):
             b, s3 = history_probe(sub, clip(inp["schedule"], len(sub)))
@@ -685,7 +850,7 @@ def shrink_failure(f, budget_s=2.5):
             if bad:
                 inp["files"] = [list(x) for x in small]
                 if "schedule" in inp:
-                    inp["schedule"] = [[min(pos, len(small)), q] for pos, q in inp["schedule"]]
+                    inp["schedule"] = [[pos if pos == POST else min(pos, len(small)), q] for pos, q in inp["schedule"]]
                 inp["shrunk_from_files"] = len(fs)
                 f["observed"] = bad[:4]
     except Exception:   # noqa: BLE001 - shrinking is a convenience
@@ -908,6 +1073,7 @@ def correspond(ctx):
     for f in fails[:3]:
         shrink_failure(f)
     n_ladder = run_ladders(ctx, dis, fails, dist)
+    n_ladder += run_scan_histories(ctx, fails, dist)
     if not h4.configuration_is_default():
         dis.append({"stream": "configured", "input": {"stream": "configured"}, "model": "default configuration restored", "impl": "configuration left modified"})
     return {
@@ -930,6 +1096,12 @@ def correspond(ctx):
                 "argument-free all_*/total_*/get_*/quality_*/ninetieth_* method of Codebase / Report / ScanTotals, len(tree), to_json, summary / overview / "
                 "findings renderings) asked at random points WHILE the files are added (also on the empty code base and just before the last file), "
                 "list answers emptied by the caller, then aggregate and the usual comparison with the model and the recomputed numbers; "
+                "round 6: the schedule also asks questions AFTER aggregate() (every presentation function: print_report / print_totals / print_summary / "
+                "print_findings of both formats, SummaryTable, ScanResultTable, with the report itself as comparison report) before object and documents are judged; "
+                "scan histories: working trees of 1..7 source files in 1..5 languages (function lengths known by construction) scanned, edited (add, "
+                "empty file, non-source file, remove, remove a folder, copy, move, modify, touch, .gitignore line; every third round ONE edit of one kind) and "
+                "scanned again 2..4 times - through scan_command (judged on the report it writes into the cache directory) or Scanner.scan_path with the report "
+                "read back from the cache (judged on the object, after presentation queries, on a second scan with the same cached report object, and on both documents); "
                 "non-trivial = distinct inputs with >= 2 files and at least one folder" % (r5.novel_only(2, 10 ** 6)[:8] or "none on this tree"),
         "samples": samples, "exhaustive": False, "distribution": dist,
         "disagreements": dis[:50], "oracle_failures": fails[:50],
@@ -981,6 +1153,10 @@ def replay(payload):
     inp = payload["input"]
     if inp.get("stream") == "pathfn":
         return True
+    if inp.get("stream") == "scan-history":
+        bad = replay_scan_history(inp["tree_steps"])
+        print("working tree history %s -> %s" % (inp["tree_steps"], "; ".join(bad[:6]) if bad else "all numbers agree"))
+        return not bad
     if not isinstance(inp.get("files"), list):
         print("summary of a large input only; see the oracle failure of the same run")
         return True
